@@ -731,6 +731,15 @@ func run(c *vf.Ctx) {
 	c.Assume("external processes (--prepipe, tee -p, | redirects) are outside the scheduler and not explored here")
 	c.Assume("tail -f clause: line-oriented readers (dkvp nidx csv tsv jsonl csvlite) x streaming chains, one line delivered at a time through a scheduler-visible channel; checked at every quiescent state with the input still open")
 	c.Assume("inputs: N<=3 (quick, plus one N=5 tee-before-head family) / N<=5 (thorough) records, 1-2 files, dkvp/csv/json readers; batch sizes 1..N+1")
+	if os.Getenv("VERIF_C04_ONLY_RACE") != "" {
+		// debugging aid: only the -race pass (evidence is then not representative: exhaustive=false)
+		c.Exhaustive = false
+		rdir, _ := os.MkdirTemp("/dev/shm", "verif-c04race-")
+		c.RunPool(vf.PoolSpec{Worker: "race", Bin: os.Getenv("VERIF_BIN_RACE"), Shards: 16, StallSecs: 900, Env: []string{"VERIF_RACE_LOG=" + filepath.Join(rdir, "race"), "GORACE=halt_on_error=0 exitcode=0 log_path=" + filepath.Join(rdir, "race")}})
+		os.RemoveAll(rdir)
+		c.DistinctNontrivial = 2
+		return
+	}
 	pairs := enumerate(c.Quick())
 	ncfg := 0
 	for _, p := range pairs {
